@@ -406,8 +406,9 @@ func main() {
 					for i := 1; i < len(cmd); i++ {
 						c2[i] = cmd[i]
 						for _, k := range clusterKeys {
-							if string(cmd[i]) == k {
-								c2[i] = []byte(fmt.Sprintf("c%d:%s", j, k))
+							// the pool keys and the keys the generator derives from them ("<key>:al<n>")
+							if string(cmd[i]) == k || strings.HasPrefix(string(cmd[i]), k+":al") {
+								c2[i] = []byte(fmt.Sprintf("c%d:%s", j, cmd[i]))
 							}
 						}
 					}
@@ -615,7 +616,7 @@ func main() {
 					r := rand.New(rand.NewSource(o.Seed*1000003 + seedOff + int64(p)))
 					for i, cmd := range gen.Program(r, gen.FCluster, 24) {
 						nm := strings.ToUpper(string(cmd[0]))
-						if excluded(nm, cmd) != "" {
+						if excluded(nm, cmd) != "" || nm == "KEYS" { // KEYS would list the harness's own readiness keys
 							continue
 						}
 						id := i%3 + 1
